@@ -1099,6 +1099,10 @@ impl<'a> GeneratorState<'a> {
                             .syntax_error("Function must return a value", pos));
                     } else {
                         self.generate_assign(&ExprType::A(f.return_signed), &e, pos, false)?;
+                        // A holds the result. The post-increments of the expression are
+                        // still pending, and so is Y when it has been borrowed
+                        self.acc_in_use = true;
+                        self.purge_deferred_plusplus_and_savey()?;
                     }
                 } else {
                     if e != ExprType::Nothing {
